@@ -161,7 +161,8 @@ def run_case(ctx, bt, case, collect):
         if sec._position != 0:
             ctx.violation("C05/closeout-leaves-position", "allocate(-value=%r) left position %r (was %r)" % (amount, sec._position, pos0), rd)
         return
-    cost = cost_of(case, q, price)
+    # nothing traded, nothing charged (a commission function may well quote a minimum fee for q = 0: it is not called)
+    cost = 0.0 if q == 0 else cost_of(case, q, price)
     if case["integer"] and q != int(q):
         ctx.violation("C05/fractional-quantity", "integer positions but traded %r" % q, rd)
         return
